@@ -224,6 +224,9 @@ func oneAppendPerIteration(f *ssa.Function) (bool, string) {
 			}
 		}
 	})
+	if len(appends) == 0 {
+		return oneStorePerIndex(f, in)
+	}
 	if len(appends) != 1 {
 		return false, fmt.Sprintf("%d append calls (expected one)", len(appends))
 	}
@@ -314,6 +317,108 @@ func oneAppendPerIteration(f *ssa.Function) (bool, string) {
 		}
 	}
 	return true, ""
+}
+
+// oneStorePerIndex: the other way to convert a list element by element: the
+// result is made with the length of the input, a counting loop i = 0..len-1
+// fills result[i] from input[i] on every iteration, and the result is returned.
+func oneStorePerIndex(f *ssa.Function, in ssa.Value) (bool, string) {
+	var out *ssa.MakeSlice
+	eachInstr(f, func(_ *ssa.BasicBlock, _ int, ins ssa.Instruction) {
+		if ms, ok := ins.(*ssa.MakeSlice); ok && types.Identical(ms.Type(), f.Signature.Results().At(0).Type()) {
+			out = ms
+		}
+	})
+	if out == nil {
+		return false, "0 append calls and no result list made with the input's length"
+	}
+	if !isLenOf(f, stripConv(out.Len), in) {
+		return false, "the result list is not made with the length of the input list"
+	}
+	// element addresses result[i] written in the loop
+	var idx *ssa.Phi
+	var storeBlocks []*ssa.BasicBlock
+	bad := ""
+	eachInstr(f, func(b *ssa.BasicBlock, _ int, ins ssa.Instruction) {
+		ia, ok := ins.(*ssa.IndexAddr)
+		if !ok || ia.X != ssa.Value(out) {
+			return
+		}
+		ph, ok := ia.Index.(*ssa.Phi)
+		if !ok {
+			bad = "an element of the result is addressed with something else than the loop counter"
+			return
+		}
+		if idx != nil && idx != ph {
+			bad = "the result is filled through two different counters"
+			return
+		}
+		idx = ph
+		if !inCycle(b) {
+			bad = "the result is written outside the loop"
+		}
+		storeBlocks = append(storeBlocks, b)
+	})
+	if bad != "" {
+		return false, bad
+	}
+	if idx == nil {
+		return false, "no element of the result list is written"
+	}
+	step, okStep := phiStep(idx)
+	fromZero := false
+	for _, e := range idx.Edges {
+		if k, ok := constInt(e); ok && k == 0 {
+			fromZero = true
+		}
+	}
+	if !okStep || step != 1 || !fromZero {
+		return false, "the loop counter does not run 0, 1, 2, ..."
+	}
+	head := idx.Block()
+	ifi, ok := head.Instrs[len(head.Instrs)-1].(*ssa.If)
+	if !ok {
+		return false, "loop head not found"
+	}
+	cmp, ok := ifi.Cond.(*ssa.BinOp)
+	if !ok || cmp.Op != token.LSS || cmp.X != ssa.Value(idx) || !isLenOf(f, stripConv(cmp.Y), in) {
+		return false, "the loop does not run over every index of the input (i < len(input))"
+	}
+	// the element is built from input[i]
+	fromCur := false
+	eachInstr(f, func(_ *ssa.BasicBlock, _ int, ins ssa.Instruction) {
+		if ia, ok := ins.(*ssa.IndexAddr); ok && ia.X == in && ia.Index == ssa.Value(idx) {
+			fromCur = true
+		}
+	})
+	if !fromCur {
+		return false, "the element stored is not built from the input element of the same index"
+	}
+	// every iteration writes result[i]
+	body := head.Succs[0]
+	avoid := map[*ssa.BasicBlock]bool{}
+	for _, b := range storeBlocks {
+		avoid[b] = true
+	}
+	if !avoid[body] && reachableFrom(body, nil, nil, avoid)[head] {
+		return false, "an iteration can skip the element (continue / conditional): a reported container is dropped"
+	}
+	for _, ri := range returnsOf(f) {
+		if len(ri.Vals) != 1 || ri.Vals[0] != ssa.Value(out) {
+			return false, "the function does not return the filled list"
+		}
+	}
+	return true, ""
+}
+
+// isLenOf: v is len(in), possibly hoisted into a local (the same SSA value).
+func isLenOf(f *ssa.Function, v ssa.Value, in ssa.Value) bool {
+	call, ok := stripConv(v).(*ssa.Call)
+	if !ok {
+		return false
+	}
+	bi, ok := call.Call.Value.(*ssa.Builtin)
+	return ok && bi.Name() == "len" && len(call.Call.Args) == 1 && sameSliceValue(f, call.Call.Args[0], in)
 }
 
 // ---- R3
